@@ -157,15 +157,42 @@ def _sock():
         ac.set(ex, s, 'sent', z3.Concat(ac.get(ex, s, 'sent'), b.e))
         return NONE
 
+    def _partial(ex, s, data, what):
+        """send / sendmsg: the kernel accepts a non-empty PREFIX of the data (all of it, or less: full send buffer, a signal, a time-out) and returns its length"""
+        ac = ex.abs_classes['Socket']
+        errs = ex.ghost.get('send_errors', ['BrokenPipeError', 'OSError'])
+        if errs:
+            d = ex.choose(1 + len(errs), f'{what}:outcome')
+            if d > 0:
+                ex.note(f'{what}:raises({errs[d - 1]})')
+                raise_(errs[d - 1])
+        c = ex.fresh('accepted', Bytes)
+        rest = ex.fresh('not_sent', Bytes)
+        ex.assume(data == z3.Concat(c, rest))
+        ex.assume(z3.Implies(z3.Length(data) > 0, z3.Length(c) >= 1))
+        ac.set(ex, s, 'sent', z3.Concat(ac.get(ex, s, 'sent'), c))
+        return VInt(z3.Length(c))
+
+    def send(ex, a, k):
+        return _partial(ex, a[0], a[1].e, 'send')
+
+    def sendmsg(ex, a, k):
+        items = ex.interp.iter_concrete(a[1])
+        if items is None or not all(isinstance(x, VBytes) for x in items):
+            raise Undecided('sendmsg of ' + repr(a[1]))
+        data = z3.Concat(*[x.e for x in items]) if len(items) > 1 else (items[0].e if items else z3.Empty(Bytes))
+        return _partial(ex, a[0], data, 'sendmsg')
+
     def noop(ex, a, k):
         return NONE
 
     return AbsClass('Socket',
                     fields={'consumed': Bytes, 'unread': Bytes, 'sent': Bytes, 'err': smt.Bool, 'reads': smt.Int},
-                    methods={'recv': recv, 'recv_into': recv_into, 'sendall': sendall, 'setsockopt': noop},
+                    methods={'recv': recv, 'recv_into': recv_into, 'sendall': sendall, 'send': send, 'sendmsg': sendmsg, 'setsockopt': noop},
                     text='T2 socket.recv(n): returns a prefix c of the unread stream with len(c) <= n, empty iff n <= 0 or the '
                          'stream has ended; may raise ConnectionResetError/OSError; sendall(b) appends b to what the peer will '
-                         'read or raises BrokenPipeError/OSError')
+                         'read or raises BrokenPipeError/OSError; send(b) / sendmsg(buffers) append a non-empty PREFIX of the data '
+                         'and return its length (a short write is always possible)')
 
 
 # ------------------------------------------------------------------------------ copy
